@@ -3,7 +3,7 @@ src/api/rule.rs).
 
 * the two `format!` strings of `MarkerString::new` (`(?:{})`, `(?P<{}>{})`) are emitted (the model builds the groups from
   them, so `regex_is_tokens` is re-proved against what the source says now);
-* `Marker::format` = `@{}`, the two descending-length sorts, the guarded replace and the `replacen(.., 1)` of the capture
+* `Marker::format` = `@{}`, the two sorts (markers: descending name.len(); variables: descending key.len() then ascending key), the guarded replace and the `replacen(.., 1)` of the capture
   string, and `StaticOrDynamic::replace` must still have the shapes the model mirrors: anything else fails closed;
 * the transformer kinds dispatched by `Transformer::to_transform` and the option keys of replace / slice are emitted
   (Props/C10 `transformer_kinds_tie` checks that the model recognises exactly these).
@@ -37,8 +37,8 @@ def extract(read, fail, lean_str, lean_list):
     if not re.search(r'str = str\.replace\(format!\("@\{name\}"\)\.as_str\(\), value\.as_str\(\)\)', m):
         fail("marker/mod.rs: StaticOrDynamic::replace is no longer a sequential str::replace of @name")
     r = read("src/api/rule.rs")
-    if not re.search(r"variables\.sort_by\(\|\(key_a, _\), \(key_b, _\)\| key_b\.len\(\)\.cmp\(&key_a\.len\(\)\)\);", r):
-        fail("api/rule.rs: the variables are no longer sorted by descending key.len()")
+    if not re.search(r"variables\.sort_by\(\|\(key_a, _\), \(key_b, _\)\| key_b\.len\(\)\.cmp\(&key_a\.len\(\)\)\.then_with\(\|\| key_a\.cmp\(key_b\)\)\);", r):
+        fail("api/rule.rs: the variables are no longer sorted by (descending key.len(), ascending key)")
     t = read("src/api/transformer.rs")
     body = re.search(r"Some\(kind\) => match kind\.as_str\(\) \{(.*)\n\s*_ => None,", t, re.S)
     if not body:
